@@ -36,8 +36,26 @@ fn c12_number_partial_cmp_reflexive() {
     assert!(num(a).partial_cmp(&num(a)) == Some(Ordering::Equal), "Number reflexive");
 }
 
+/// C12: two non-NaN numbers are always comparable and exactly one of <, ==, >
+/// holds, where == is "partial_cmp says Equal" (the form `Numeric` uses).
+/// The mirrored view (a<b iff b>a) is c12_number_partial_cmp_antisymmetric.
+#[kani::proof]
+fn c12_number_trichotomy_one_of_three() {
+    let a: f64 = kani::any();
+    let b: f64 = kani::any();
+    kani::assume(!a.is_nan() && !b.is_nan());
+    let (x, y) = (num(a), num(b));
+    let c = x.partial_cmp(&y);
+    assert!(c.is_some(), "numbers that are not NaN are comparable");
+    let lt = x < y;
+    let gt = x > y;
+    let eq = c == Some(Ordering::Equal);
+    assert!(lt as u8 + eq as u8 + gt as u8 == 1, "exactly one of <, ==, > holds");
+}
+
 /// C12: for comparable numbers (neither NaN) exactly one of <, ==, > holds,
-/// both as seen from a and as seen from b.
+/// both as seen from a and as seen from b.  (Eight evaluations of the
+/// relative-epsilon division: exceeds 300 s — thorough-tier attempt.)
 #[kani::proof]
 fn c12_number_trichotomy() {
     let a: f64 = kani::any();
